@@ -505,6 +505,9 @@ def classify(prefix, run, e, env):
     if m is None:
         return f"{prefix}:{kind(e)}", e
     chain = blame_chain(m, fails)
+    # a CommonSubexpression wrapper is transparent (printed as / meaning its child): the shape is
+    # named by the nodes around it, unless the wrapper is all there is
+    chain = [c for c in chain if c.split("[")[0] != "CommonSubexpression"] or chain
     if len(chain) == 1:
         return f"{prefix}:{chain[0]}", m
     return f"{prefix}:" + ">".join(c.split("[")[0] for c in chain[-2:]), m
@@ -528,6 +531,78 @@ def gen_exprs(rng, tier, n_typed, n_syntax, cse=0.02, two=True, three=0):
     sg = SyntaxGen(rng)
     for _ in range(n_syntax):
         yield "syntax", sg.gen(rng.randint(1, 5))
+
+
+def sprinkle_cse(rng, e, rate=0.12):
+    """the tree with CommonSubexpression wrappers put around random subterms: with and without a
+    prefix, both scopes, nested (wrapper around a wrapper) and shared (the same wrapper OBJECT at
+    every occurrence of an equal subterm)"""
+    import dataclasses
+    pool = {}
+
+    def wrap(c):
+        key = repr(c)
+        if key in pool and rng.random() < 0.5:
+            return pool[key]
+        w = p.CommonSubexpression(c, rng.choice([None, None, "t", "cse_x"]),
+                                  rng.choice([p.cse_scope.EVALUATION, p.cse_scope.EXPRESSION]))
+        if rng.random() < 0.2:
+            w = p.CommonSubexpression(w, rng.choice([None, "u"]))
+        pool[key] = w
+        return w
+
+    def go(e):
+        if isinstance(e, tuple):
+            return tuple(go(c) for c in e)
+        if not isinstance(e, p.Expression) or not dataclasses.is_dataclass(e) \
+                or isinstance(e, p.CommonSubexpression):
+            r = e
+        else:
+            kw = {}
+            for f in dataclasses.fields(e):
+                v = getattr(e, f.name)
+                if isinstance(e, (p.Call, p.CallWithKwargs)) and f.name == "function":
+                    kw[f.name] = v
+                elif isinstance(v, tuple) and f.name in ("children", "parameters"):
+                    kw[f.name] = tuple(None if c is None else go(c) for c in v)
+                elif hasattr(v, "items"):
+                    kw[f.name] = {k: go(c) for k, c in v.items()}
+                elif isinstance(v, p.Expression) or (isinstance(v, (int, Fraction)) and f.name not in (
+                        "name", "operator", "prefix", "scope")):
+                    kw[f.name] = go(v)
+                else:
+                    kw[f.name] = v
+            r = type(e)(**kw)
+        if isinstance(r, (p.Expression, int, Fraction)) and not isinstance(r, (bool, p.Slice)) \
+                and rng.random() < rate:
+            return wrap(r)
+        return r
+    return go(e)
+
+
+def cse_directed():
+    """wrappers in every position where the printer treats the operand specially"""
+    a, b, c, f = (p.Variable(n) for n in "abcf")
+    C = p.CommonSubexpression
+    ab, adb, fdb, rem = p.Product((a, b)), p.Quotient(a, b), p.FloorDiv(a, b), p.Remainder(a, b)
+    shared = C(p.Sum((a, b)), "s")
+    out = [C(a), C(a, "pfx"), C(C(a)), C(C(a, "in"), "out"), C(p.Sum((a, 1))), C(-2), C(C(-2, "n")),
+           p.Power(C(-2), a), p.Power(a, C(-2)), p.Power(C(p.Power(a, b)), c), p.Power(a, C(p.Power(b, c))),
+           p.Product((shared, shared)), p.Sum((shared, p.Product((2, shared)), C(shared))),
+           p.Call(f, (C(a), shared)), p.CallWithKwargs(f, (C(a),), {"k": shared}),
+           p.Subscript(C(p.Variable("v")), C(1)), p.Subscript(p.Variable("v"), C((1,))),
+           p.Subscript(p.Variable("v"), (C(1),)), p.If(C(p.Comparison(a, "<", b)), C(a), C(b)),
+           p.LogicalNot(C(p.Comparison(a, "<", b))), p.Comparison(C(p.LogicalNot(a)), "==", b),
+           p.BitwiseNot(C(p.BitwiseOr((a, b)))), p.LeftShift(C(p.LeftShift(a, 1)), C(p.Sum((b, 1)))),
+           p.Min((C(a), b)), p.Max((C(a), C(b))), p.Lookup(C(p.Variable("r")), "u"),
+           p.Sum((C(p.Sum((a, b))), c)), p.Product((C(ab), c)), p.Product((c, C(ab)))]
+    for inner in (ab, adb, fdb, rem, p.Sum((a, b)), p.Power(a, 2), a):
+        for w in (C(inner), C(C(inner, "t")), C(inner, "p")):
+            out += [p.Quotient(c, w), p.Quotient(w, c), p.FloorDiv(c, w), p.FloorDiv(w, c),
+                    p.Remainder(c, w), p.Remainder(w, c), p.Product((c, w)), p.Product((w, c)),
+                    p.Product((c, w, a)), p.Sum((c, w)), p.Power(w, 2), p.Power(2, w),
+                    p.Product((-1, w)), p.BitwiseNot(w) if inner is a else p.Sum((w, 1))]
+    return out
 
 
 def encodable(e):
@@ -637,7 +712,11 @@ class CompileStream(PathStream):
 
     def cases(self, rng, tier):
         n = 1 if tier == "quick" else 12
-        for src, e in gen_exprs(rng, tier, 1300 * n, 500 * n, three=300 * n):
+        population = list(gen_exprs(rng, tier, 1300 * n, 500 * n, three=300 * n))
+        population += [("cse-directed", e) for e in cse_directed()]
+        for src, e in population:
+            if src in ("typed", "syntax", "three-level") and rng.random() < 0.25:
+                e, src = sprinkle_cse(rng, e), src + "+cse"
             s = encodable(e)
             if s is None:
                 continue
@@ -1452,6 +1531,8 @@ def _printed_shape(e):
         return tuple(_printed_shape(c) for c in e)
     if not isinstance(e, p.Expression) or not dataclasses.is_dataclass(e):
         return e
+    if isinstance(e, p.CommonSubexpression):
+        return _printed_shape(e.child)          # a wrapper means (and is printed as) its child
     if isinstance(e, p.Subscript) and isinstance(e.index, tuple) and len(e.index) == 1:
         return p.Subscript(_printed_shape(e.aggregate), _printed_shape(e.index[0]))
     if isinstance(e, p.CallWithKwargs) and not e.kw_parameters:
@@ -1499,7 +1580,7 @@ def source_reading(e):
 
 
 def _mentions_foreign(e):
-    return any(isinstance(s, (p.Slice, list, str, complex, p.CommonSubexpression, p.Substitution,
+    return any(isinstance(s, (p.Slice, list, str, complex, p.Substitution,
                               p.Derivative, p.NaN, p.Wildcard, p.DotWildcard, p.StarWildcard,
                               p.FunctionSymbol)) or s is None for s in scan.subterms(e))
 
@@ -1526,8 +1607,8 @@ def misread(s):
 
 def _printed(c):
     """a one-operand n-ary node prints as its operand: name what is really printed"""
-    while isinstance(c, NARY) and len(c.children) == 1:
-        c = c.children[0]
+    while (isinstance(c, NARY) and len(c.children) == 1) or isinstance(c, p.CommonSubexpression):
+        c = c.child if isinstance(c, p.CommonSubexpression) else c.children[0]
     return c
 
 
@@ -1576,7 +1657,11 @@ class SourceGroupsStream(Stream):
 
     def cases(self, rng, tier):
         n = 1 if tier == "quick" else 12
-        for src, e in gen_exprs(rng, tier, 900 * n, 900 * n, cse=0.0, three=600 * n):
+        population = list(gen_exprs(rng, tier, 900 * n, 900 * n, cse=0.03, three=600 * n))
+        population += [("cse-directed", e) for e in cse_directed()]
+        for src, e in population:
+            if src in ("typed", "syntax", "three-level") and rng.random() < 0.3:
+                e, src = sprinkle_cse(rng, e), src + "+cse"
             s = encodable(e)
             if s is not None:
                 yield {"expr": s, "envs": envs_payload(rng, 1), "src": src}
@@ -1721,11 +1806,24 @@ def probes():
     attempt("compile:Power>negative-float", lambda: pcompile(p.Power(-2.5, a))(2) != 6.25,
             "compile(Power(-2.5, a))(2)")
 
+    C = p.CommonSubexpression
+    attempt("compile:CommonSubexpression",
+            lambda: [pcompile(C(a))(2), pcompile(C(C(p.Sum((a, 1)), "t")))(2),
+                     pickle.loads(pickle.dumps(pcompile(p.Product((C(p.Sum((a, b))), C(a, "u"))))))(2, 3)]
+            != [2, 3, 10],
+            "compile(CommonSubexpression(a))(2), nested / prefixed / pickled wrappers")
+    attempt("compile:CommonSubexpression",
+            lambda: [pcompile(p.Quotient(c, C(p.Product((a, b)))))(2, 3, 12),
+                     pcompile(p.Product((c, C(p.FloorDiv(a, b)))))(7, 2, 12),
+                     pcompile(p.FloorDiv(c, C(C(p.Remainder(a, b), "t"))))(7, 2, 12)] != [2, 36, 12],
+            "wrappers around products / divisions where the printer forces parentheses: "
+            "compile(Quotient(c, CSE(a*b)))(2, 3, 12) must be 2 (source 'c / (a*b)')")
+
     # open findings (listed in known_findings.C13.jsonl): replayed through the oracle
     cs = CompileStream()
     for e in [p.Comparison(p.LogicalNot(a), "==", b), p.Product((a, p.LogicalNot(b))),
               p.Sum((p.LogicalNot(a), b)), p.BitwiseNot(p.LogicalNot(a)),
-              p.LogicalAnd((a, b)), p.LogicalOr((a, b)), p.CommonSubexpression(a)]:
+              p.LogicalAnd((a, b)), p.LogicalOr((a, b))]:
         pl = {"expr": dumps(expr_to_sx(e)), "listed": [], "src": "probe",
               "envs": [dumps(env_to_sx({"a": 2, "b": 3})), dumps(env_to_sx({"a": False, "b": False})),
                        dumps(env_to_sx({"a": True, "b": 0}))]}
@@ -1759,9 +1857,12 @@ PROP = Prop(
              "are exact numbers and of | ^ & ints/bools (else a different error can surface); "
              "keyword calls, floats, slices: executing oracle only",
              "PV.C13.compile_source_groups_partial":
-             "the compiled SOURCE TEXT (= the stringifier's text since the repair of "
-             "CompileMapper.map_constant: compile_text_is_str) groups, under any parser table, the "
-             "way the tree does on the decidable fragment InFragment of C06 (covered node shapes: "
+             "the compiled SOURCE TEXT (= the stringifier's text of the tree without its "
+             "CommonSubexpression wrappers, since the repairs of CompileMapper.map_constant and of "
+             "its wrapper handlers: compile_text_is_str, on cseShapeOk: no wrapper directly around a "
+             "tuple index or a None slice part) groups, under any parser table, the way the "
+             "wrapper-free tree does (which has the tree's value: strip_cse_value) on the decidable "
+             "fragment InFragment of C06 (covered node shapes: "
              "n-ary | ^ & and or with two operands, sums/products with two or more; every child "
              "passes the local condition; source_bad_pairs_current lists the 40 failing (position, "
              "child class) pairs for the Python table: the known findings "
